@@ -132,6 +132,10 @@ def run(ctx):
                     continue
                 dcases.append(f"d {h(t.encode())} {want} {'.'.join(h(x) for x in p)}")
                 dmeta.append((t, p, kind, want))
+        # every table (and the root) read as a struct with a required field it does not have
+        for p, kind in [((), "map")] + [(p, k) for p, k in lv if k == "map"][:2]:
+            dcases.append(f"d {h(t.encode())} missing {'.'.join(h(x) for x in p) if p else '.'}")
+            dmeta.append((t, p, kind, "missing"))
     rc, dout, _ = run_lines(tvh, "c15", dcases)
     dout += ["CRASH"] * (len(dcases) - len(dout))
     derrs = 0
